@@ -66,7 +66,9 @@ def run(ctx):
     n_worlds = 150 if ctx.quick else 3000
     made = 0
     while made < n_worlds:
-        w = random_world(rng, n_modules=rng.randint(8, 26), n_imports=rng.randint(2, 45))
+        from harness.world import PREFIX_POOL
+        w = random_world(rng, n_modules=rng.randint(8, 26), n_imports=rng.randint(2, 45),
+                         pool=PREFIX_POOL if rng.random() < 0.5 else None)      # component names that prefix each other
         tops = [m for m in w.modules if len(m) == 2]
         if len(tops) < 3:
             continue
